@@ -202,10 +202,14 @@ type variant struct {
 	ReadBuf int
 	// EOFData: the transport hands out its last bytes together with io.EOF (allowed by io.Reader)
 	EOFData bool
+	// LocalClose: the application has already sent its own Close frame and keeps reading (RFC 6455 7.1.2:
+	// the peer may still send data and control frames until it answers the Close); what is delivered must
+	// not depend on it, only the frames written back are no longer possible
+	LocalClose bool
 }
 
 func (v variant) String() string {
-	return fmt.Sprintf("api=%s seg=%s readbuf=%d eof-with-data=%v", []string{"ReadMessage", "NextReader+ReadAll", "NextReader+Read(3)"}[v.API], v.Seg, v.ReadBuf, v.EOFData)
+	return fmt.Sprintf("api=%s seg=%s readbuf=%d eof-with-data=%v local-close-sent=%v", []string{"ReadMessage", "NextReader+ReadAll", "NextReader+Read(3)"}[v.API], v.Seg, v.ReadBuf, v.EOFData, v.LocalClose)
 }
 
 // readOne reads the next message with the chosen API.
@@ -245,6 +249,11 @@ func drive(cs *wsCase, wire []byte, v variant, seed int, maxMsgs int) observed {
 	ws := websocket.VerifNewConn(a, cs.Role == "server", v.ReadBuf, 0, false)
 	if cs.Limit > 0 {
 		ws.SetReadLimit(cs.Limit)
+	}
+	if v.LocalClose {
+		if err := ws.WriteControl(websocket.CloseMessage, websocket.FormatCloseMessage(websocket.CloseNormalClosure, ""), time.Now().Add(time.Hour)); err != nil {
+			rp.Bug("local close failed: %v", err)
+		}
 	}
 	var o observed
 	for {
@@ -354,6 +363,34 @@ func matchOutcome(oc outcome, cls string, code int, closes []wframe) string {
 }
 
 // compare checks one run against the expectation: delivered messages, pongs, one of the allowed outcomes.
+// compareMsgs judges only what was delivered (and that the read ended in an error).
+func compareMsgs(cs *wsCase, o observed, seed int, wantMsgs []message) (string, string) {
+	for i, m := range o.Msgs {
+		if i >= len(wantMsgs) {
+			return fmt.Sprintf("message %d delivered (type %d, %d bytes) but the specification delivers only %d message(s)", i+1, m.Type, len(m.Payload), len(wantMsgs)), "extra"
+		}
+		w := wantMsgs[i]
+		var want []byte
+		for _, f := range w.Frags {
+			want = append(want, ld.FillBytes(f.N, f.ID, seed)...)
+		}
+		if m.Type != w.Type {
+			return fmt.Sprintf("message %d has type %d, want %d", i+1, m.Type, w.Type), ""
+		}
+		if !bytes.Equal(m.Payload, want) {
+			return fmt.Sprintf("message %d payload differs: %s", i+1, rp.FirstDiff(m.Payload, want)), "payload"
+		}
+	}
+	if len(o.Msgs) < len(wantMsgs) {
+		w := wantMsgs[len(o.Msgs)]
+		return fmt.Sprintf("only %d of %d messages delivered; message %d (type %d, %d bytes) missing, the read failed with: %v", len(o.Msgs), len(wantMsgs), len(o.Msgs)+1, w.Type, w.Len, o.Err), "missing"
+	}
+	if o.Err == nil {
+		return "the reader never failed", ""
+	}
+	return "", ""
+}
+
 func compare(cs *wsCase, o observed, seed int, wantMsgs []message, wantPongs []frag, allowed []outcome) (string, string) {
 	for i, m := range o.Msgs {
 		if i >= len(wantMsgs) {
@@ -616,6 +653,19 @@ func replayCase(c *rp.Ctx, i int, raw json.RawMessage) rp.Result {
 		}
 		if cs.Clean && wrote1002(o.Wrote) {
 			return fail("every frame was acceptable and the stream ended at a frame boundary, but a Close 1002 (protocol error) was written", "outcome", v, "stream ended after the last frame", o)
+		}
+	}
+
+	// (1b) the application has sent its own Close before reading: the same messages are delivered
+	if (i+c.Seed)%2 == 0 {
+		v := variant{API: i % 3, Seg: segs[i%3], ReadBuf: []int{0, 125}[i%2], LocalClose: true}
+		if len(wire) > 40000 && v.Seg == "one" {
+			v.Seg = "whole"
+		}
+		o := drive(&cs, wire, v, c.Seed, maxMsgs)
+		runs++
+		if what, kind := compareMsgs(&cs, o, c.Seed, cs.Delivered); what != "" {
+			return fail(what, kind, v, "stream ended after the last frame", o)
 		}
 	}
 
